@@ -100,6 +100,8 @@ def completeAt (rs : List RoundInfo) (k : Nat) (img : String) (n : Nat) : Bool :
 
 /-- C08 on a rollout scenario: completion within a bound linear in the number of children, and clean-up -/
 def oracleC08Rounds (c : J) : Option String :=
+  -- a parent deleted in the middle of the rollout is finalized instead of rolled out: not a liveness scenario
+  if c.getInt "deleteAt" ≥ 0 && (c.get? "deleteAt").isSome then none else
   let rs := (c.getArr "rounds").map RoundInfo.ofJ
   let n := (c.getInt "replicas").toNat
   let change := if c.getInt "secondChangeAt" ≥ 0 then (c.getInt "secondChangeAt").toNat else (c.getInt "changeAt").toNat
